@@ -628,6 +628,18 @@ func genC09(tier string, seed uint64) {
 			stages[svc] = append(stages[svc], in[:len(in)/2+1])
 		}
 	}
+	// mid-handshake: the client asks for the TLS upgrade (or opens a TLS/ssh connection) and then stays silent, or
+	// sends the beginning of a ClientHello and stays silent
+	hello := []byte{0x16, 0x03, 0x01, 0x00, 0xc8, 0x01, 0x00, 0x00, 0xc4, 0x03, 0x03, 1, 2, 3, 4, 5, 6, 7, 8, 9}
+	startTLS := append([]byte{0x30, 0x1d, 0x02, 0x01, 0x01, 0x77, 0x18, 0x80, 0x16}, "1.3.6.1.4.1.1466.20037"...)
+	for svc, pre := range map[string][]byte{"smtp": []byte("EHLO x\r\nSTARTTLS\r\n"), "ftp": []byte("AUTH TLS\r\n"), "ldap": startTLS, "https": nil} {
+		if _, ok := stages[svc]; ok {
+			if pre != nil {
+				stages[svc] = append(stages[svc], pre)
+			}
+			stages[svc] = append(stages[svc], append(append([]byte(nil), pre...), hello...))
+		}
+	}
 	if tier == "thorough" {
 		// a transfer command on a passive port nobody connects to waits for the accept timeout (30 s) before the
 		// idle timeout of the control connection starts
